@@ -154,3 +154,25 @@ impl core::fmt::Display for CallOrder {
         write!(f, "{}", self.0 + 1)
     }
 }
+
+#[cfg(unimock_verif)]
+impl MockError {
+    pub(crate) fn verif_kind(&self) -> &'static str {
+        match self {
+            Self::Downcast { .. } => "Downcast",
+            Self::NoMockImplementation { .. } => "NoMockImplementation",
+            Self::NoMatcherFunction { .. } => "NoMatcherFunction",
+            Self::NoMatchingCallPatterns { .. } => "NoMatchingCallPatterns",
+            Self::NoOutputAvailableForCallPattern { .. } => "NoOutputAvailableForCallPattern",
+            Self::MockNeverCalled { .. } => "MockNeverCalled",
+            Self::CallOrderNotMatchedForMockFn { .. } => "CallOrderNotMatchedForMockFn",
+            Self::InputsNotMatchedInCallOrder { .. } => "InputsNotMatchedInCallOrder",
+            Self::CannotReturnValueMoreThanOnce { .. } => "CannotReturnValueMoreThanOnce",
+            Self::FailedVerification(_) => "FailedVerification",
+            Self::CannotUnmock { .. } => "CannotUnmock",
+            Self::NoDefaultImpl { .. } => "NoDefaultImpl",
+            Self::NotAnswered { .. } => "NotAnswered",
+            Self::ExplicitPanic { .. } => "ExplicitPanic",
+        }
+    }
+}
